@@ -187,7 +187,24 @@ def noteBranches (c : Ctx) (op : Op) (s s' : St) : Ctx :=
   { c with starts := c.starts + nStarts,
            interesting := c.interesting + (if s'.spinning || nStarts ≥ 2 then 1 else 0) }
 
+/-- The comparator case: `less wa ia wb ib => 0|1` lines from the real `Item.Less`. -/
+def judgeLess (lines : Array String) : Verdict := Id.run do
+  for l in lines do
+    let (opT, obs) := splitObs (tokens l)
+    match opT with
+    | ["cfg", _] => continue
+    | ["less", wa, ia, wb, ib] =>
+      let some wa := wa.toInt? | return .badop l
+      let some ia := ia.toNat? | return .badop l
+      let some wb := wb.toInt? | return .badop l
+      let some ib := ib.toNat? | return .badop l
+      let m := boolTok (less (key ia wa) (key ib wb))
+      if obs != [m] then return .mismatch s!"Item.Less ({wa},{ia}) ({wb},{ib}): model {m} observed {obs}"
+    | _ => return .badop l
+  return .ok true ["less-grid"]
+
 def judge (_id : String) (lines : Array String) : Verdict := Id.run do
+  if lines.any (fun l => (tokens l).head? == some "less") then return judgeLess lines
   -- pre-pass: the oracles of the whole case
   let mut tbls : List Tbl := []
   let mut wks : List (Nat × Nat) := []
